@@ -262,7 +262,10 @@ class Ctx:
         lock = os.path.join(hd, "Cargo.lock")
         if not os.path.exists(lock):
             import shutil
-            shutil.copy(os.path.join(REPO, "Cargo.lock"), lock)
+            for cand in (os.path.join(HARNESS, "Cargo.lock"), os.path.join(REPO, "Cargo.lock"), "/repo/Cargo.lock"):
+                if os.path.exists(cand):
+                    shutil.copy(cand, lock)
+                    break
         rc, out, t = sh(cmd, cwd=hd, timeout=1800, env={"CARGO_TARGET_DIR": TARGET})
         self.timed("cargo_build_s", t)
         if rc != 0:
